@@ -168,14 +168,15 @@ func (m *MessageStore) processMessageLoop(ctx context.Context, tracer *messageMe
 			return
 		}
 
-		// get or create a device cache for the device from which we received the message.
+		// get or create a device cache for the device from which we received the message;
+		// if its chain key is not known yet the message is parked in that cache.
 		device, hasKnownChainKey := m.getOrCreateDeviceCache(ctx, message, tracer)
 		if device == nil {
 			// unknown device, lets keep moving
 			continue
 		} else if !hasKnownChainKey {
-			// we dont know the chain key yet, add message to the device cache
-			device.queue.Add(message)
+			// we dont know the chain key yet, the message has been added to
+			// the device cache by getOrCreateDeviceCache
 			_ = m.emitters.groupCacheMessage.Emit(*message)
 			continue
 		}
@@ -224,6 +225,14 @@ func (m *MessageStore) getOrCreateDeviceCache(ctx context.Context, message *mess
 			hasKnownChainKey: hasSecret,
 		}
 		m.deviceCaches[devicePublicKeyString] = device
+	}
+
+	if !device.hasKnownChainKey {
+		// park the message while still holding muDeviceCaches:
+		// ProcessMessageQueueForDevicePK takes the same lock to mark the chain
+		// key as known and to hand the parked messages back, so a message
+		// can no longer slip into the cache right after it was drained
+		device.queue.Add(message)
 	}
 
 	return device, device.hasKnownChainKey
